@@ -1,6 +1,7 @@
 (* Model/PosPipe.v — the positioning pipeline of src/hb/ot_shape.rs for the DEFAULT shaper, as far as
    property C07 needs it: cmap lookup, ensure_native_direction, glyph properties, a RESTRICTED GSUB
-   (ligature lookups only, each run on a buffer whose lig_props are still all zero — enough to
+   (ligature lookups only; ligate_input with HarfBuzz's full component bookkeeping, so a ligature may be built from
+   ligatures — enough to
    produce the lig ids / components that mark-to-ligature consumes), position_default (advances from
    hmtx / vmtx, vertical origins), GPOS::position_start, position_by_plan (GPOS, then legacy kern),
    zero_mark_widths_by_gdef (LATE for the default shaper), position_finish_offsets and the final
@@ -148,24 +149,44 @@ Definition ligature_glyph_props (f : font) (old_props class_guess lig_glyph : N)
   else props.
 
 (* the glyphs between / at the matched positions after the first one: components are dropped
-   (`buffer.idx += 1`), everything else is copied out, with lig props when a real ligature forms *)
-Fixpoint ligate_tail (is_lig : bool) (lid : N) (l : list info) (k : nat) (positions : list nat) (comps_so_far : N)
-  : list info * list info :=
+   (`buffer.idx += 1`), everything else is copied out; when a real ligature forms, a skipped glyph (a mark) is
+   numbered by the components in front of it: new = comps_so_far - last_num_comps + min(this_comp or last_num_comps,
+   last_num_comps), where a component that is itself a ligature counts with ITS number of components
+   (ligate_input).  Returns the output glyphs, the remaining input and the final (comps_so_far, last_lig_id,
+   last_num_comps) for the marks that follow the last component. *)
+Definition renumbered_comp (comps_so_far last_num : N) (x : info) : N :=
+  let this_comp := if lig_comp x =? 0 then last_num else lig_comp x in
+  comps_so_far - last_num + N.min this_comp last_num.
+
+Fixpoint ligate_tail (is_lig : bool) (lid : N) (l : list info) (k : nat) (positions : list nat)
+         (comps_so_far last_lig last_num : N) : list info * list info * (N * N * N) :=
   match positions with
-  | [] => ([], l)
+  | [] => ([], l, (comps_so_far, last_lig, last_num))
   | p :: pt =>
       match l with
-      | [] => ([], [])
+      | [] => ([], [], (comps_so_far, last_lig, last_num))
       | x :: t =>
-          if (k =? p)%nat then ligate_tail is_lig lid t (S k) pt (comps_so_far + 1)
+          if (k =? p)%nat then ligate_tail is_lig lid t (S k) pt (comps_so_far + lig_num_comps x) (lig_id x) (lig_num_comps x)
           else
-            let x' := if is_lig then set_ligprops x (N.lor (N.shiftl lid 5) (N.land comps_so_far 15)) else x in
-            let '(out, rest') := ligate_tail is_lig lid t (S k) positions comps_so_far in
-            (x' :: out, rest')
+            let x' := if is_lig then set_ligprops x (N.lor (N.shiftl lid 5) (N.land (renumbered_comp comps_so_far last_num x) 15)) else x in
+            let '(out, rest', st) := ligate_tail is_lig lid t (S k) positions comps_so_far last_lig last_num in
+            (x' :: out, rest', st)
       end
   end.
 
-(* ligate_input on a buffer whose upcoming glyphs have lig_props = 0 *)
+(* marks behind the last component that belonged to it while it was a ligature of its own keep their place,
+   shifted by the components in front of that ligature (in place, on the remaining input) *)
+Fixpoint renumber_following (lid comps_so_far last_lig last_num : N) (l : list info) : list info :=
+  match l with
+  | [] => []
+  | x :: t =>
+      if (lig_id x =? last_lig) && negb (lig_comp x =? 0)
+      then set_ligprops x (N.lor (N.shiftl lid 5) (N.land (renumbered_comp comps_so_far last_num x) 15))
+           :: renumber_following lid comps_so_far last_lig last_num t
+      else l
+  end.
+
+(* ligate_input *)
 Definition ligate (f : font) (b : zbuf) (serial : N) (positions : list nat) (lig_glyph : N) : result (zbuf * N) :=
   let last := last positions O in
   do b1 <- merge_clusters_full b (dead b) (dead b + S last);
@@ -178,11 +199,16 @@ Definition ligate (f : font) (b : zbuf) (serial : N) (positions : list nat) (lig
       let is_mark_lig := is_mark first && all_marks in
       let is_lig := negb is_base_lig && negb is_mark_lig in
       let '(lid, serial') := if is_lig then allocate_lig_id serial else (0, serial) in
-      let total := N.of_nat (S (length positions)) in
+      (* total_component_count of match_input: every matched glyph counts with its own number of components *)
+      let total := fold_left (fun a x => a + lig_num_comps x) comps (lig_num_comps first) in
+      let first_lig := lig_id first in
+      let first_num := lig_num_comps first in
       let first1 := if is_lig then set_ligprops first (N.lor (N.shiftl lid 5) (N.lor 16 (N.land total 15))) else first in
       let first2 := set_gid (set_gprops first1 (ligature_glyph_props f (gprops first1) (if is_lig then GP_LIGATURE else 0) lig_glyph)) lig_glyph in
-      let '(out, rest') := ligate_tail is_lig lid tl 1 positions 1 in
-      Ok (with_pr b1 (pre b1 ++ first2 :: out) rest' (dead b1 + S last), serial')
+      let '(out, rest', st) := ligate_tail is_lig lid tl 1 positions first_num first_lig first_num in
+      let '(so_far, last_lig, last_num) := st in
+      let rest'' := if negb is_mark_lig && negb (last_lig =? 0) then renumber_following lid so_far last_lig last_num rest' else rest' in
+      Ok (with_pr b1 (pre b1 ++ first2 :: out) rest'' (dead b1 + S last), serial')
   end.
 
 Fixpoint try_ligatures (f : font) (mp : N) (b : zbuf) (serial : N) (ligs : list ligature) : result (option (zbuf * N)) :=
